@@ -240,7 +240,13 @@ impl<Left: Executor, Right: Executor> Executor for NestedLoopJoin<Left, Right> {
                 self.unmatched_right_idx += 1;
 
                 if !self.right_matched[idx] {
-                    let row = nulls_with_right(&self.right_buffer[idx], self.left_cols);
+                    // The left width is only learnt from the first left row: with an empty left
+                    // input it has to come from the output schema
+                    let left_cols = self
+                        .output_schema
+                        .num_columns()
+                        .saturating_sub(self.right_buffer[idx].len());
+                    let row = nulls_with_right(&self.right_buffer[idx], left_cols);
                     self.stats.rows_produced += 1;
                     return Ok(Some(row));
                 }
